@@ -31,7 +31,7 @@ def sh(cmd, cwd=None, env=None, timeout=1800):
     e = dict(os.environ)
     e.update(env or {})
     try:
-        r = subprocess.run(cmd, cwd=cwd, env=e, capture_output=True, text=True, timeout=timeout)
+        r = subprocess.run(cmd, cwd=cwd, env=e, capture_output=True, text=True, errors="replace", timeout=timeout)
         return r.returncode, r.stdout + r.stderr
     except subprocess.TimeoutExpired as x:
         return 124, f"TIMEOUT {x}"
